@@ -569,9 +569,9 @@ Section WithWF.
       - apply (Permutation_in _ Hp H).
     Qed.
 
-    Lemma acyc_replay : exists c', replay (partition_changes S) c = Some c'.
+    Lemma acyc_split : split_ok (partition_changes S) c.
     Proof.
-      apply (ranked_replay_ok ra); try exact acyc_sorted.
+      apply (ranked_split ra); try exact acyc_sorted.
       - apply (Permutation_NoDup (Permutation_flat_map adds perm_part)). apply NoDup_adds. apply (wf_names cs HWF).
       - intros n Hn. apply (proj1 (fm_in _ _)) in Hn. apply (cn_adds c cs Hcons n Hn).
       - apply (Permutation_NoDup (Permutation_flat_map drops perm_part)). apply NoDup_drops. apply (wf_names cs HWF).
@@ -607,6 +607,9 @@ Section WithWF.
         * unfold nm in Hny; simpl in Hny. split; [simpl; rewrite Hcov; rewrite (proj2 (Nat.eqb_eq _ _) Hny); reflexivity|].
           unfold ra. simpl. pose proof (key_bound (ModifyTable t tcs)). unfold Koff. lia.
     Qed.
+
+    Lemma acyc_replay : exists c', replay (partition_changes S) c = Some c'.
+    Proof. apply (split_replay_ok _ _ acyc_split). Qed.
   End Acyclic.
 End WithWF.
 
@@ -1012,9 +1015,9 @@ Section Cyclic.
     exists (AddTable t fks'). split; [apply partition_in; exact Hy|split; reflexivity].
   Qed.
 
-  Lemma cyc_replay : exists c', replay (partition_changes L) c = Some c'.
+  Lemma cyc_split : split_ok (partition_changes L) c.
   Proof.
-    apply (ranked_replay_ok rc); try apply detach_sorted.
+    apply (ranked_split rc); try apply detach_sorted.
     - apply (Permutation_NoDup (Permutation_sym (Permutation_flat_map adds (partition_perm L)))). exact cyc_adds_nodup.
     - intros n Hn. apply (proj1 (fmP adds n)) in Hn. unfold L in Hn. rewrite detach_adds in Hn.
       apply (cn_adds c cs Hcons n Hn).
@@ -1084,6 +1087,9 @@ Section Cyclic.
         * simpl. rewrite (proj2 (Nat.eqb_eq _ _) Hny). simpl. apply existsb_exists. exists tc. split; assumption.
         * simpl. rewrite forallb_addfk_rest; [lia|]. intros E. rewrite E in Hfe. destruct Hfe.
   Qed.
+
+  Lemma cyc_replay : exists c', replay (partition_changes L) c = Some c'.
+  Proof. apply (split_replay_ok _ _ cyc_split). Qed.
 End Cyclic.
 
 (** * The three statements *)
@@ -1152,6 +1158,16 @@ Proof.
   - destruct HS as [Hp Hs]. split.
     + apply SortChanges_backward. apply (acyc_backward cs HWF sorted S Esm Hp Hs).
     + apply (acyc_replay cs HWF c sorted S Hcons Esm Hp Hs).
+Qed.
+
+Theorem safe_except_split cs c S :
+  WF cs -> consistent c cs ->
+  (sortMap cs = SMCycle -> no_repoint_to_added cs) ->
+  detach_spec cs S -> split_ok (partition_changes S) c.
+Proof.
+  intros HWF Hcons Hex. unfold detach_spec. destruct (sortMap cs) as [| |sorted] eqn:Esm; intros HS; [destruct HS| |].
+  - subst S. apply (cyc_split cs c HWF Hcons (Hex eq_refl)).
+  - destruct HS as [Hp Hs]. apply (acyc_split cs HWF c sorted S Hcons Esm Hp Hs).
 Qed.
 
 Theorem plan_safe_except cs c :
